@@ -324,7 +324,7 @@ uint32_t IP::calculate_options_size() const {
         options_size += sizeof(uint8_t);
         const option_identifier option_id = iter->option();
         // Only add length field and data size for non [NOOP, EOL] options
-        if (option_id.op_class != CONTROL || option_id.number > NOOP) {
+        if (option_id.number > NOOP) {
             options_size += sizeof(uint8_t) + iter->data_size();
         }
     }
@@ -360,8 +360,8 @@ IP::options_type::iterator IP::search_option_iterator(option_identifier id) {
 
 void IP::write_option(const option& opt, OutputMemoryStream& stream) {
     stream.write(opt.option());
-    // Check what we wrote. We'll do this for any option != [END, NOOP]
-    if (*(stream.pointer() - 1) > NOOP) {
+    // Single byte options are those the parser treats as such: number in [END, NOOP]
+    if (opt.option().number > NOOP) {
         uint8_t length = opt.length_field();
         if (opt.data_size() == opt.length_field()) {
             length += 2;
